@@ -423,8 +423,17 @@ func (w *world) observe(ci *callInfo) {
 
 	// --- the waiting queue: operators that were enqueued and not started
 	inQueue := map[*operator.Operator]bool{}
+	perDesc := map[string]int64{}
 	for _, op := range w.oc.GetWaitingOperators() {
 		inQueue[op] = true
+		perDesc[op.Desc()]++
+	}
+	if w.populated {
+		for _, n := range perDesc {
+			noteMax("max_waiting_operators_of_one_description", n)
+		}
+		noteMax("max_waiting_operators", int64(len(inQueue)))
+		noteMax("max_running_operators", int64(len(cur)))
 	}
 	for _, t := range w.live {
 		if t.last == operator.CREATED && inQueue[t.op] && !t.waiting {
@@ -945,4 +954,12 @@ func sortedRids(m map[uint64]*opTrack) []uint64 {
 	}
 	sort.Slice(out, func(i, j int) bool { return out[i] < out[j] })
 	return out
+}
+
+var maxima = map[string]int64{}
+
+func noteMax(name string, v int64) {
+	if v > maxima[name] {
+		maxima[name] = v
+	}
 }
